@@ -114,12 +114,13 @@ func c14Ops() []c14Op {
 	return ops
 }
 
-// c14Globals serialises the package-level variables of the package under test.
-func c14Globals() string {
-	return fmt.Sprintf("%q %q %q %q %q %q %q %q %q %q %q | %s %s %s %s %s %s %s %s %s %s %s | %q",
-		lockedToThread, raceHeaderFooter, raceHeader, crlf, lf, commaSpace, writeCap, writeLow, threeDots, underscore, inaccurateQuestionMark,
-		reRoutineHeader, reMinutes, reUnavail, reFile, reCreated, reFunc, reRaceOperationHeader, reRacePreviousOperationHeader, reRaceGoroutine, reModule, reMethodSymbol, testMainSrc)
-}
+// c14GlobalsFn serialises the package-level variables of the package under test. It
+// is installed by c14_globals_test.go, a separate file, so that a renamed variable
+// only costs that part of the state key (the driver drops a harness file that no
+// longer compiles when the check can do without it).
+var c14GlobalsFn = func() string { return "(package-level variables not bound)" }
+
+func c14Globals() string { return c14GlobalsFn() }
 
 func c14State(a, b *Snapshot, optsA, optsB *Opts) string {
 	return canonSnapshot(a) + "\n--\n" + canonSnapshot(b) + "\n--\n" + fmt.Sprintf("%+v %+v", *optsA, *optsB) + "\n--\n" + c14Globals()
